@@ -221,7 +221,8 @@ func (r *remoteReplicator) IsReady() bool {
 		r.ResetReplicaIndex(needResetReplicaIdx)
 		r.state.Store(&state{state: models.ReplicatorReadyState})
 		return true
-	case remoteLastReplicaAckIdx > appendIdx:
+	case remoteLastReplicaAckIdx >= appendIdx:
+		// NOTE: appendIdx is the next append index(appended seq + 1), so follower is ahead of leader also when they are equal.
 		// new write data will be lost, because leader's lost old wal data
 		r.ResetAppendIndex(nextReplicaIdx)
 		r.statistics.ResetAppendIdx.Incr()
